@@ -39,6 +39,14 @@ claimed = {
    'Seeded deterministic simulation of protocol 3/4 transfers paused 1-3 times by Ctrl-C at tape-chosen messages and continued through the real prompt after a think time of 0.02T..3T (T in {2,5,20} s on the fake clock). Oracles: pause <= 0.8T => both sides succeed with identical files; pause >= 1.2T => success with identical files or an error, never a hang and never a wrong file (in between either); wire monitor: while the question is open the client writes at most two non-keep-alive data messages.',
    'Same-tree peers; the no-data-while-paused monitor looks at the client side (the side that owns the prompt).',
    'deterministic simulation with seeded pause instants and lengths on the fake clock; real prompt; FS/report oracles + wire monitor', '§4 C18'),
+ 'C09': ('exploration',
+   'Seeded deterministic simulation: a protocol-aware link rewriter replaces the name in a NAME message between the real sender and the real receiver (plain names and JSON path lists: .. in any position, embedded separators, absolute paths, empty elements, over-long names, backslashes) for both receiving roles, -y on/off, -d on/off, protocols 1-4; a component batch feeds the real archive writer entry headers with hostile path lists. Oracle: before/after snapshot of the destination parent (canary file, sibling directory with a canary): nothing outside the destination is created, modified or removed; created-files list and reported names stay inside.',
+   'Linux path semantics only (backslash is an ordinary character here); same-tree peers except for the injected names.',
+   'deterministic simulation with a protocol-aware rewriter on the link (hostile peer); FS containment oracle', '§4 C09'),
+ 'C12': ('exploration',
+   'Seeded deterministic simulation of transfers in which a protocol-aware link rewriter replaces the payload of 1-3 protocol lines sent to the attacked role by boundary values (numbers: -1, 0, +-1, 2^31, 2^62, 2^63-1, non-numeric, oversized; broken base64/zlib; truncated or wrongly typed JSON; hostile known fields), at every stage, both roles, protocols 1-4, base64/binary, with and without a progress display. Oracles: no panic or fatal error in any goroutine (worker crash attributed to the run via BEGIN/END markers and re-executed for its tape), allocation during the run bounded by 64 MiB + 16 x bytes moved (ulimit -v 8 GiB on the worker), both roles end, no percentage outside 0..100 on the terminal, transparency probe passes afterwards.',
+   'Raw byte soup into the detectors (trigger/zmodem/OSC52/drag) is exercised by the C05 check, whose crashes would also stop this check; Windows/macOS drag-path syntaxes are not reachable on this host.',
+   'deterministic simulation with a protocol-aware field rewriter (hostile peer), crash attribution, allocation monitor', '§4 C12'),
 }
 pending_reason = 'check not built yet in this session (deterministic simulation planned, see DESIGN.md §4); not claimed'
 checks = []
